@@ -47,7 +47,7 @@ def _prop_fails(c, case_ops, hbin, exe):
     return None
 
 
-def property_cases(c, ops_file, impl_file, hbin, exe, limit=3, budget=120):
+def property_cases(c, ops_file, impl_file, hbin, exe, limit=3, budget=60):
     """vcheck.diff cuts a case at its first differing line; a mutation often shows first as a mere difference of the
     dump and only later in the same case as a failure of the property oracle (FAIL/panic line). Find such cases,
     cut them at the first FAIL/panic line and shrink them with 'the implementation still FAILs' as the predicate."""
@@ -126,7 +126,8 @@ def run(a):
             m = c.run_model(exe, ops)
             if m:
                 property_cases(c, ops, impl, hbin, exe)
-                c.diff(ops, impl, m, stateful=True, hbin=hbin, exe=exe)
+                # concrete failing inputs already extracted: keep the generic (first-difference) report short
+                c.diff(ops, impl, m, stateful=True, hbin=hbin, exe=exe, max_report=2 if c.problems else 8)
                 c.cov["programs"] = st.get("schedule", 0) + st.get("walk", 0) + st.get("walk-recycle", 0)
                 c.cov["exhaustive"] = False
     c.prove("ClientGoVerif.Props.C17")
